@@ -11,44 +11,54 @@
 (* configuration may have happened in the same process (Earlier): the      *)
 (* base table is frozen, so what a configuration resolves does not depend  *)
 (* on that history (mutant experimentalLeaks: a compilation with           *)
-(* WithExperimentalFuncs writes the experimental names into the base).     *)
+(* WithExperimentalFuncs writes the experimental names into the base;      *)
+(* customLeaks: AddFunction after WithExperimentalFuncs registers into a   *)
+(* merged table that later compilations share, so the custom name is       *)
+(* resolved without being registered and registering it again fails).      *)
 (***************************************************************************)
 EXTENDS C16
 
-VARIABLES cfg, name, count, phase, found, accepted, result, hist, base
-vars == <<cfg, name, count, phase, found, accepted, result, hist, base>>
+VARIABLES cfg, name, count, phase, found, accepted, result, hist, base, merged
+vars == <<cfg, name, count, phase, found, accepted, result, hist, base, merged>>
 
-BaseNames == {Table[j].name : j \in {h \in 1..Len(Table) : Table[h].status # "experimental"}}
-ExpNames  == Names \ BaseNames
-(* what a compilation under configuration c resolves, given the base table as it is now *)
-VisibleNow(c) == base \cup (IF c = "experimental" THEN ExpNames ELSE {})
+BaseNames   == Visible("default")
+ExpNames    == Visible("experimental") \ BaseNames
+CustomNames == Visible("custom") \ Visible("experimental")
+(* `base` is the process-wide base table, `merged` what a compilation gets on top of it when it asks for the        *)
+(* experimental functions; both are constants of a correct implementation.  What a compilation under configuration *)
+(* c resolves, given them as they are now:                                                                          *)
+VisibleNow(c) == base \cup (IF c \in {"experimental", "custom"} THEN merged ELSE {})
+                      \cup (IF c = "custom" THEN CustomNames ELSE {})
+(* AddFunction fails when its name is already there *)
+OptionsFail(c) == c = "custom" /\ CustomNames \cap (base \cup merged) # {}
 
 AllNames == Names \cup {"nosuchfn"}
 
 Init ==
   /\ cfg \in Configs /\ name \in AllNames /\ count \in Counts
   /\ phase = "start" /\ found = FALSE /\ accepted = FALSE /\ result = "none"
-  /\ hist = <<>> /\ base = BaseNames
+  /\ hist = <<>> /\ base = BaseNames /\ merged = ExpNames
 
 Earlier(c) ==
   /\ phase = "start" /\ Len(hist) < 2
   /\ hist' = Append(hist, c)
-  /\ base' = IF Mutant = "experimentalLeaks" /\ c = "experimental" THEN base \cup ExpNames ELSE base
+  /\ base' = IF Mutant = "experimentalLeaks" /\ c \in {"experimental", "custom"} THEN base \cup ExpNames ELSE base
+  /\ merged' = IF Mutant = "customLeaks" /\ c = "custom" /\ ~OptionsFail(c) THEN merged \cup CustomNames ELSE merged
   /\ UNCHANGED <<cfg, name, count, phase, found, accepted, result>>
 
 Lookup ==
   /\ phase = "start"
   /\ found' = Found(VisibleNow(cfg), name)
   /\ phase' = "resolved"
-  /\ UNCHANGED <<cfg, name, count, accepted, result, hist, base>>
+  /\ UNCHANGED <<cfg, name, count, accepted, result, hist, base, merged>>
 
 Bounds(n) == IF Known(n) THEN <<MinCount(Entry(n)), MaxCount(Entry(n))>> ELSE <<0, 0>>
 
 Check ==
   /\ phase = "resolved"
-  /\ accepted' = (found /\ InBounds(Bounds(name)[1], Bounds(name)[2], count))
+  /\ accepted' = (~OptionsFail(cfg) /\ found /\ InBounds(Bounds(name)[1], Bounds(name)[2], count))
   /\ phase' = "compiled"
-  /\ UNCHANGED <<cfg, name, count, found, result, hist, base>>
+  /\ UNCHANGED <<cfg, name, count, found, result, hist, base, merged>>
   /\ Known(name) /\ hist = <<>> => PrintT(ToJson(CaseOf(Entry(name), count, cfg)))
 
 Run ==
@@ -58,7 +68,7 @@ Run ==
                     THEN "not-implemented-error"
                ELSE "value"
   /\ phase' = "done"
-  /\ UNCHANGED <<cfg, name, count, found, accepted, hist, base>>
+  /\ UNCHANGED <<cfg, name, count, found, accepted, hist, base, merged>>
 
 Next == (\E c \in Configs : Earlier(c)) \/ Lookup \/ Check \/ Run
 Spec == Init /\ [][Next]_vars
@@ -67,7 +77,8 @@ Spec == Init /\ [][Next]_vars
 TableWellFormed == WellFormed
 
 (* No compilation changes the base table. *)
-BaseTableFrozen == base = BaseNames /\ (\A c \in Configs : VisibleNow(c) = Visible(c))
+BaseTableFrozen == /\ base = BaseNames /\ merged = ExpNames
+                   /\ \A c \in Configs : VisibleNow(c) = Visible(c) /\ ~OptionsFail(c)
 
 (* Compile accepts exactly the calls the table allows - whatever was compiled before. *)
 AcceptIffAllowed ==
